@@ -1039,14 +1039,14 @@ def diag_runs():
     out = []
     clean = b"SCHEMA s;\nENTITY a;\n  v : INTEGER;\nEND_ENTITY;\nEND_SCHEMA;\n"
     out.append(("clean", clean, [], ("-", "-", "-"), 0))
-    for k in (1, 3, 12):
+    for k in (1, 3, 12, 150):       # 150: the -B buffer (4000 bytes, 100 messages) fills up more than once
         calls = "".join(f"  y{i} := f(x, x, x);\n" for i in range(k))
         loc = "".join(f"  y{i} : INTEGER;\n" for i in range(k))
         w = f"SCHEMA s;\nFUNCTION f(x : INTEGER) : INTEGER;\nLOCAL\n{loc}END_LOCAL;\n{calls}  RETURN (x);\nEND_FUNCTION;\nEND_SCHEMA;\n".encode()
         # any -w/-i switches the blanket "all warnings off" of main off; the named class itself is not used by the input
         out.append((f"warnings:{k}", w, ["-i", "indexing"], ("-", ",".join(["Ws"] * k), "-"), k))
         out.append((f"warnings_default:{k}", w, [], ("-", "-", "-"), 0))
-    for k in (1, 3, 12):
+    for k in (1, 3, 12, 150):
         attrs = "".join(f"  v{i} : nosuch{i};\n" for i in range(k))
         e = f"SCHEMA s;\nENTITY a;\n{attrs}END_ENTITY;\nEND_SCHEMA;\n".encode()
         out.append((f"errors:{k}", e, [], ("-", ",".join(["Es"] * k), "-"), k))
